@@ -557,6 +557,11 @@ class _Scope:
                         return h, f.value
                     if h.kind == "class":
                         return h, f.value
+            # <local>._helper(...): a private method of this module called on some other instance (e.g. instance = cls(); instance._h(x)):
+            # accepted when the name is unique among the module's private helpers
+            cands = [h for (c, n), h in self.by_class.items() if n == f.attr and h.kind == "method"]
+            if len(cands) == 1 and f.attr.startswith("_") and base not in self.self_names:
+                return cands[0], f.value
         return None, None
 
 
@@ -833,7 +838,8 @@ def _inline_helpers(mod: str, tree: ast.Module, all_helpers, trees, pkgs: Set[st
                                     if p_ in h.locals:
                                         pass
                                     mapping[p_] = ast.Name(id=tmp, ctx=ast.Load())
-                            rename = {n: n + suffix for n in h.locals}
+                            imported = {(a_.asname or a_.name).split(".")[0] for n_ in ast.walk(h.node) if isinstance(n_, (ast.Import, ast.ImportFrom)) for a_ in n_.names}
+                            rename = {n: n + suffix for n in h.locals if n not in imported}
                             for p_ in b:
                                 if p_ in h.locals:
                                     rename[p_] = p_ + suffix
